@@ -97,7 +97,13 @@ func (p *parser) rule() bool {
 	ri := RuleInfo{Name: p.text()}
 	if p.accept(DQ_STRING) || p.accept(SQ_STRING) {
 		txt := p.text()
-		ri.Description = txt[1 : len(txt)-1]
+		// a description is a string literal: escapes denote the escaped character; text that is not
+		// a valid escaped string is kept as written
+		if dec, ok := decode(txt); ok {
+			ri.Description = dec
+		} else {
+			ri.Description = txt[1 : len(txt)-1]
+		}
 		ri.HasDesc = true
 	}
 	if p.accept(SALIENCE) {
@@ -307,6 +313,29 @@ func (p *parser) constant() bool {
 	}
 	p.reset(m)
 	return false
+}
+
+// decode returns the value of a string literal token.
+func decode(tok string) (string, bool) {
+	if !unquote(tok) {
+		return "", false
+	}
+	q := tok[0]
+	s := tok[1 : len(tok)-1]
+	var b strings.Builder
+	for len(s) > 0 {
+		r, multibyte, rest, err := strconv.UnquoteChar(s, q)
+		if err != nil {
+			return "", false
+		}
+		s = rest
+		if r < utf8.RuneSelf || !multibyte {
+			b.WriteByte(byte(r))
+		} else {
+			b.WriteRune(r)
+		}
+	}
+	return b.String(), true
 }
 
 // unquote mirrors the documented escape rules: Go escapes (strconv.UnquoteChar) under the
